@@ -8,7 +8,7 @@ ParamLists == {<<>>, <<"int">>, <<"double">>, <<"int", "double">>, <<"int", "dou
 NoGen == <<>>
 Plain == {[name |-> n, params |-> p, ndef |-> d, sfx |-> s, dsfx |-> ds, insts |-> <<>>, gens |-> NoGen] :
             n \in Names, p \in ParamLists, d \in 0..2, s \in {"", "_x", "_y"},
-            ds \in {<<>>, <<"_a", "_b", "_c">>}}
+            ds \in {<<>>, <<"_a">>, <<"_a", "_b">>, <<"_a", "_b", "_c">>}}
 Tmpl == {[name |-> n, params |-> <<"T">>, ndef |-> 0, sfx |-> "", dsfx |-> <<>>,
           insts |-> <<[ty |-> "int", sfx |-> ""], [ty |-> "double", sfx |-> ts]>>, gens |-> NoGen] :
             n \in Names, ts \in {"", "_dbl"}}
@@ -28,7 +28,7 @@ Admitted(fs) ==
   /\ \A i \in 1..Len(fs) :
         /\ fs[i].ndef <= Len(fs[i].params)
         /\ (fs[i].ndef > 0 => fs[i].sfx = "")                     \* one function_suffix per function: use default_arg_suffix
-        /\ (fs[i].dsfx # <<>> => (fs[i].ndef = 2 /\ fs[i].sfx = ""))  \* the list has one entry per arity
+        /\ (fs[i].dsfx # <<>> => (fs[i].ndef >= 1 /\ Len(fs[i].dsfx) <= fs[i].ndef + 1 /\ fs[i].sfx = ""))  \* at most one entry per form
   /\ \A i, j \in 1..Len(fs) : (i # j /\ fs[i].name = fs[j].name) =>
         /\ (fs[i].sfx # "" /\ fs[j].sfx # "") => fs[i].sfx # fs[j].sfx
         /\ (fs[i].dsfx = <<>> \/ fs[j].dsfx = <<>>)
